@@ -184,9 +184,18 @@ def validWL (acc : Nat → Bool) (waitsOf : Nat → List Nat) (self : Nat) : Nat
 
 def inTable (g : Graph) (s : St) (w : Nat) : Bool := decide (w < g.n) && (s.pc w).accepted
 
-/-- does `Create` accept task `t` now: wait list valid against the table, root scope not done -/
+/-- the scope task `t` is started in can take a new task (`parentScope.AddTasks(1)` at the head of
+`Create`, fix "a pipeline task signs on to the scope it is started in"): its context has not failed.
+The body of a try block is started in the separated scope, whose context is fresh. -/
+def submitCtxOk (g : Graph) (s : St) (t : Nat) : Bool :=
+  match g.role t with
+  | .tbody _ => true
+  | _ => !s.cerr (g.ctx t)
+
+/-- does `Create` accept task `t` now: the scope it is started in is not done, wait list valid against
+the table, root scope not done -/
 def canCreate (g : Graph) (s : St) (t : Nat) : Bool :=
-  validWL (inTable g s) g.waits t 101 (g.waits t) && !s.cerr 0
+  validWL (inTable g s) g.waits t 101 (g.waits t) && !s.cerr 0 && submitCtxOk g s t
 
 /-! ### Transitions -/
 
@@ -257,7 +266,8 @@ def stepTask (g : Graph) (s : St) (t : Nat) : Option St :=
         some (emit { s with pc := upd (upd s.pc c .rejected) t (.closing false),
                             cerr := upd s.cerr (g.ctx t) true } (.ret t i false))
     | some (.try_ y) =>
-      -- parentScope.AddTasks(1) refuses when the owner's context is done; Create when the root's is
+      -- parentScope.AddTasks(1) refuses when the owner's context is done; Create when the root's is (the body is
+      -- started in the separated scope, whose context is fresh)
       if !s.cerr (g.ctx t) && canCreate g s (g.tryd y).body then
         some (emit { s with pc := upd (upd s.pc (g.tryd y).body (.waiting 0)) t (.afterCmd i),
                             tg := upd s.tg y .waitBody } (.ret t i true))
@@ -435,37 +445,22 @@ def isHandler (g : Graph) (t : Nat) : Bool :=
   | .hfin _ => true
   | _ => false
 
-/-- the events before the first occurrence of `e` -/
-def beforeEv (e : Ev) (pre : List Ev) : List Ev := pre.takeWhile (fun x => x != e)
-
-/-- handler `h` was accepted by the task manager when its context (or the root context) already had a
-cause of failure: the cause lies strictly before the acceptance event -/
-def acceptedAfterCause (g : Graph) (pre : List Ev) (h : Nat) : Prop :=
-  Ev.hacc h ∈ pre ∧ causeFor g (beforeEv (.hacc h) pre) h
-
 /-- The fate of a handler `h` of try `y` that has to run, as seen when the owner of the try closes.
-Either it STARTED (first command entered), or one of three EVENTS sealed its fate — and the cause of
-failure lies strictly BEFORE that event:
-* it was accepted by the manager and closed without having started: the clause of `done h false`
-  demands a cause of failure in the handler's (= the owner's) context or in the root context among the
-  events before it (RunLoop took the `<-Done()` branch before the first command);
-* it was accepted into a context that had ALREADY failed (`acceptedAfterCause`: the cause precedes
-  `hacc h`) — the implementation runs such a task detached from its owner (finding KF-C16-1:
-  `scope.NewChild` does not register a child of a scope that is done), the model never needs this case;
-* a handler submission of this try was refused: the clause of `hrej` demands a cause in the handler's
-  (= the owner's) or the root context before it (the manager refuses submissions once the root scope
-  is done — in the model that is the only reason, `Props/C16.handlers_submitted_after_body` — and, once
-  finding KF-C16-1 is repaired, submissions into a scope that is done; the try goroutine then stops).
+Either it STARTED (first command entered), or one of two EVENTS sealed its fate — and the clause of
+that event (`Ok`) demands the cause of failure strictly BEFORE the event:
+* it was accepted by the manager and closed without having started: `done h false` needs a cause of
+  failure in the handler's (= the owner's) context or in the root context among the events before it
+  (RunLoop took the `<-Done()` branch before the first command);
+* a handler submission of this try was refused: `hrej` needs a cause in the handler's (= the owner's)
+  or the root context before it (the manager refuses a task whose scope or whose root scope is done;
+  the try goroutine then stops submitting).
 A failure that happens later — in particular a failure of another handler of the same try after
 this one could have started — excuses nothing: an event-order condition, not an end-of-trace one. -/
 def handlerFate (g : Graph) (pre : List Ev) (y h : Nat) : Prop :=
-  Ev.cmd h 0 ∈ pre ∨
-  (Ev.hacc h ∈ pre ∧ (Ev.done h false ∈ pre ∨ acceptedAfterCause g pre h)) ∨
-  ∃ h' ∈ g.handlers y, Ev.hrej h' ∈ pre
+  Ev.cmd h 0 ∈ pre ∨ (Ev.hacc h ∈ pre ∧ Ev.done h false ∈ pre) ∨ ∃ h' ∈ g.handlers y, Ev.hrej h' ∈ pre
 
 /-- command `i` of `t` returned and everything it started has closed; every handler of a try block
-that was started has closed, every handler that was accepted has closed (unless it was accepted into
-an already failed context, see `handlerFate`), and every selected handler has met its fate -/
+that was started or accepted by the manager has closed, and every selected handler has met its fate -/
 def cmdClosed (g : Graph) (pre : List Ev) (t i : Nat) : Prop :=
   hasRet pre t i ∧
   (Ev.ret t i true ∈ pre →
@@ -473,7 +468,7 @@ def cmdClosed (g : Graph) (pre : List Ev) (t i : Nat) : Prop :=
     | some (.spawn c) => hasDone pre c
     | some (.try_ y) => hasDone pre (g.tryd y).body ∧
         (∀ h ∈ g.handlers y, Ev.cmd h 0 ∈ pre → hasDone pre h) ∧
-        (∀ h ∈ g.handlers y, Ev.hacc h ∈ pre → hasDone pre h ∨ acceptedAfterCause g pre h) ∧
+        (∀ h ∈ g.handlers y, Ev.hacc h ∈ pre → hasDone pre h) ∧
         (∀ h ∈ selected g pre y, handlerFate g pre y h)
     | _ => True)
 
@@ -536,8 +531,6 @@ instance (g : Graph) (pre : List Ev) (t : Nat) : Decidable (submitted g pre t) :
 instance (g : Graph) (pre : List Ev) (t : Nat) : Decidable (waitsOk g pre t) := by unfold waitsOk; infer_instance
 instance (g : Graph) (pre : List Ev) (t i : Nat) : Decidable (cmdDoneOk g pre t i) := by
   unfold cmdDoneOk; split <;> infer_instance
-instance (g : Graph) (pre : List Ev) (h : Nat) : Decidable (acceptedAfterCause g pre h) := by
-  unfold acceptedAfterCause; infer_instance
 instance (g : Graph) (pre : List Ev) (y h : Nat) : Decidable (handlerFate g pre y h) := by
   unfold handlerFate; infer_instance
 instance (g : Graph) (pre : List Ev) (t i : Nat) : Decidable (cmdClosed g pre t i) := by
